@@ -315,6 +315,13 @@ def regen_generated(log):
         xlate_validate.write_tables(reports, log)
     except Exception as e:          # the translator itself must never take a check down; C08 reports what it could not translate
         log.append("regen_generated: %s: %s" % (type(e).__name__, str(e)[:300]))
+    try:
+        # C16: Generated/C16Spec_<isa>.lean (intrinsic specialisations of the reduction back ends) is cut out of the same translator's
+        # output and must follow Simd_<isa>.lean; the function test-builds what it writes and falls back to stubs, so the driver links
+        from props import c16_xlate
+        c16_xlate.regenerate(REPO, log)
+    except Exception as e:
+        log.append("regen_generated (C16Spec): %s: %s" % (type(e).__name__, str(e)[:300]))
 
 
 def prop_modules(pid):
